@@ -53,8 +53,8 @@ def run(ctx):
             p = t["callee"].get("path", "")
             tys = t.get("arg_tys", [])
             # the line / column accessors of the iterator: `fn(&LineColIterator<I>) -> usize`
-            if "LineColIterator::<I>::" in p and len(tys) == 1 and tys[0].startswith("&parse::iter::LineColIterator<") \
-                    and t.get("dest_ty", "usize") == "usize":
+            # (whatever they return: a usize each for line and column, or one Position for both)
+            if "LineColIterator::<I>::" in p and len(tys) == 1 and tys[0].startswith("&parse::iter::LineColIterator<"):
                 had_next = any(e[0] == "call" and "std::iter::Iterator::next" in e[1] for e in path.events)
                 accessors.add(p.rsplit("::", 1)[1])
                 tok = Opq("iter.%s@%s" % (p.rsplit("::", 1)[1], "after-next" if had_next else "before-next"))
@@ -74,6 +74,8 @@ def run(ctx):
     def fields(v):
         if isinstance(v, Adt) and v.adt.endswith("Position"):
             return tuple(repr(x) for x in v.fields)
+        if isinstance(v, Opq) and v.root.startswith("iter."):
+            return (repr(v),)         # one accessor that returns the whole position
         return None
 
     # position() without a pending byte
@@ -83,6 +85,8 @@ def run(ctx):
     def line_col_before(pair):
         """(line accessor before next, column accessor before next): two different accessors of the iterator,
         the first named line*, the second col* when they carry those names."""
+        if isinstance(pair, tuple) and len(pair) == 1:
+            return re.match(r"<iter\.(\w+)@before-next>$", pair[0]) is not None
         if not (isinstance(pair, tuple) and len(pair) == 2):
             return False
         m = [re.match(r"<iter\.(\w+)@before-next>$", x) for x in pair]
@@ -242,7 +246,7 @@ def column_unit(ctx, lexpr):
                 return ("value", Adt(OPT, 1, [Adt(RES, 0, [b])]))
             return None
 
-        S = sim.Sim([lexpr], hooks={"call": hook})
+        S = sim.Sim([lexpr], hooks={"call": hook}, inline=lambda a, c: c.crate == lexpr.name and c.file.endswith("parse/iter.rs"))
         outs = set()
         for p in S.run(it):
             if p.end != "return":
@@ -257,11 +261,24 @@ def column_unit(ctx, lexpr):
     # slice side: byte values the recount switches on
     special_slice = set()
     n_sw = 0
-    for b in sl.blocks:
-        t = b["term"]
-        if t["k"] == "switch" and t.get("ty") == "u8" and not b.get("cleanup"):
-            n_sw += 1
-            special_slice |= {v for v, _ in t["targets"]}
+    # the recount and the closures it hands to iterator adaptors: byte values matched (`match *ch { b'\n' => ..`)
+    # or compared (`|&b| b == b'\n'`)
+    for g in [sl] + lexpr.closures_of(sl.path):
+        for b in g.blocks:
+            if b.get("cleanup"):
+                continue
+            t = b["term"]
+            if t["k"] == "switch" and t.get("ty") == "u8":
+                n_sw += 1
+                special_slice |= {v for v, _ in t["targets"]}
+            for st in b["stmts"]:
+                if st["k"] == "assign" and st["rv"]["k"] == "bin" and st["rv"]["op"] in ("Eq", "Ne") \
+                        and st["rv"].get("aty") == "u8":
+                    for side in (st["rv"]["a"], st["rv"]["b"]):
+                        v = common.const_int(side)
+                        if v is not None:
+                            n_sw += 1
+                            special_slice.add(v)
     if n_sw == 0:
         r.anchor_missing("byte dispatch in SliceRead::position_of_index")
         return
